@@ -152,7 +152,14 @@ def run_case(case, opts):
                      for members in plan]
             h = fresh("jr")
             try:
-                triplets = ma_exporter.parse_plan(prob, action_sequence=lines, allow_inapplicable_actions=allow)
+                if rng.random() < 0.5:
+                    triplets = ma_exporter.parse_plan(prob, action_sequence=lines, allow_inapplicable_actions=allow)
+                else:       # the same joint plan given as a file
+                    pp = pylib.write_tmp("".join(lines), ".plan")
+                    try:
+                        triplets = ma_exporter.parse_plan(prob, plan_path=pp, allow_inapplicable_actions=allow)
+                    finally:
+                        os.unlink(pp)
                 runs[h] = triplets
                 ev.append({"c": "RunJointPlan", "h": h, "d": "d", "p": "p", "plan": plan, "allow": allow,
                            "out": {"steps": proj_joint_steps(triplets)}})
@@ -164,6 +171,8 @@ def run_case(case, opts):
                 text = "".join(MultiAgentTrajectoryExporter.export(triplets))
                 ev.append({"c": "ExportJointTrajectory", "r": h, "out": {"tree": sexp_reader.read(text)}})
                 p = pylib.write_tmp(text, ".trajectory")
+                if rng.random() < 0.5:      # written by the library itself
+                    ma_exporter.export_to_file(triplets, p)
                 try:
                     obs = ma_parser.parse_trajectory(p, executing_agents=agents)
                     comps = [{"pre": pylib.project_state(c.previous_state),
@@ -198,6 +207,15 @@ def run_case(case, opts):
             try:
                 joint = converter.convert_plan(prob, p, order, should_validate_concurrency_constraint=cc)
                 out = {"joint": [[[a.name, list(a.parameters)] for a in j.actions] for j in joint]}
+                # the plan file the converter writes: one line per joint action, the same members in the same slots
+                fp = pylib.write_tmp("", ".jointplan")
+                try:
+                    converter.export_plan(fp, joint)
+                    import re as _re
+                    out["file"] = [[[w.split()[0], w.split()[1:]] for w in _re.findall(r"\(([^()]*)\)", ln)]
+                                   for ln in open(fp, encoding="utf-8").read().split("\n") if ln.strip()]
+                finally:
+                    os.unlink(fp)
             except Exception as e:  # noqa: BLE001
                 out = {"exc": pylib.exc_name(e), "joint": []}
             finally:
